@@ -2,12 +2,13 @@
 Proof: lean/Props/C18.lean (session invariant over the proxy heap model; cache-key relation over the model of
 `patch_session_for_shared_dap_cache`).  Tie: (a) the same traced histories as C14, run on plain / CachedSession(memory)
 / CachedSession + consolidated keys sessions: the model's log (session, request) vs the URLs handed to the session;
-(b) custom_create_key vs the model on generated URL pairs (props/c18_cachekey.py).
+(b) custom_create_key vs the model on generated URL pairs (props/c18_cachekey.py); (c) real CachedSession histories vs
+the caching-session model: hit/miss, returned body, wire (props/c18_cachehist.py).
 Oracle: a transport adapter mounted on the session is the only way to the server, name resolution disabled (a request
 through any other session fails in milliseconds and the read raises); every proxy carries the dataset's session;
 reads on the cached sessions equal the reads on the plain session; key collisions judged directly."""
 import common
-from props import c18_cachekey
+from props import c18_cachehist, c18_cachekey
 from props import clientsim as cs
 
 LEVEL = "proof"
@@ -40,6 +41,7 @@ def explore(ctx, tier, search=False):
                                 hr.reads[:6], reads["plain"][:6], size=100 * len(ops) + len(repr(ops)))
     ctx.correspond("session of every GET (model log vs URLs handed to the session)", cases)
     c18_cachekey.explore(ctx, "thorough" if search else tier)
+    c18_cachehist.explore(ctx, "thorough" if search else tier)
 
 
 def run(ctx):
@@ -47,9 +49,14 @@ def run(ctx):
                 "session kinds {plain, CachedSession(memory), CachedSession + consolidated keys}; a history is non-trivial "
                 "when it issues at least one GET; plus URL pairs for the cache-key relation (hosts, paths under / sibling "
                 "of / outside the common base, Earthdata collections, constraints inside/outside the shared set, quoting, "
-                "parameter order), non-trivial when at least one of the two gets a normalised key")
+                "parameter order), non-trivial when at least one of the two gets a normalised key; plus URL histories (2..12 GETs "
+                "with repeats over pools mixing the same classes) on real CachedSession(memory) sessions, unpatched and with "
+                "consolidated keys, non-trivial when at least one GET is answered from the cache")
     ctx.assumptions = ["requests / requests_cache (dispatch, storage, expiry) are modelled, not verified; the unpatched "
                        "create_key is assumed injective on URLs and disjoint from normalised key texts",
+                       "EXPLICIT (hypothesis of C18_cache_transparent_customKey): the server answers a declared shared-"
+                       "dimension constraint identically in every file under the declared base (and within one Earthdata "
+                       "collection); without it consolidation changes results (C18_cache_consolidated_needs_shared_equal)",
                        "name resolution is disabled: a request outside the session fails fast"]
     ctx.proof_phase()
     explore(ctx, ctx.tier)
@@ -62,6 +69,8 @@ def replay(payload):
         print("nothing to replay: %s" % payload.get("no_longer_checks"))
         return False
     c = f["case"]
+    if "history" in c:
+        return c18_cachehist.replay_case(c)
     if "ops" not in c:
         return c18_cachekey.replay_case(c)
     ctx = common.Ctx("C18", "quick", 0)
